@@ -39,9 +39,19 @@ func main() {
 	replay := flag.String("replay", "", "replay file: re-evaluate that one obligation on the current tree")
 	list := flag.Bool("list", false, "list registered properties")
 	sym := flag.String("sym", "", "developer aid: print the abstract interpretation of pkg:Func or pkg:Type.Method")
+	symW := flag.String("symworkers", "", "developer aid: print worker-closure facts of pkg:Func")
 	symFail := flag.Bool("symfail", false, "with -sym: explore read-failure outcomes")
 	flag.Parse()
 
+	if *symW != "" {
+		p, err := Load(*repo, "")
+		if err != nil {
+			fmt.Println(err)
+			os.Exit(2)
+		}
+		debugWorkers(p, *symW)
+		return
+	}
 	if *sym != "" {
 		p, err := Load(*repo, "")
 		if err != nil {
